@@ -8,7 +8,7 @@ package main
 //   cfg     (roots sel opts ties)        -- everything needed to re-run the implementation
 //     roots (cid ...)                     (api 0..2: exactly one)
 //     sel   (kind depth (path ...))       selector description (selSpec)
-//     opts  (dpad ipad codec dups budget chooser nilroots)
+//     opts  (dpad ipad codec dups budget chooser nilroots plain)
 //     ties  1 when two distinct CIDs of the store share a digest (index byte order unspecified)
 //   store   ((cid data) ...)             the blocks the link system / block store holds
 //   traces  (((cid data nread touched) ...) ok) ...   the ORACLE: what the traversal library
@@ -115,14 +115,19 @@ type travOpts struct {
 	budget     uint64 // 0 = not given, else MaxTraversalLinks(budget-1)
 	chooser    bool   // v2: WithTraversalPrototypeChooser(dagpb-aware)
 	nilRoots   bool   // api 4: pass a nil root slice when there are no roots
+	plain      bool   // api 4: WriteCar (DefaultWalkFunc) instead of WriteCarWithWalker
 }
 
 func (o travOpts) val() Val {
-	return VL{VN(o.dpad), VN(o.ipad), VN(o.codec), vbool(o.dups), VN(o.budget), vbool(o.chooser), vbool(o.nilRoots)}
+	return VL{VN(o.dpad), VN(o.ipad), VN(o.codec), vbool(o.dups), VN(o.budget), vbool(o.chooser), vbool(o.nilRoots), vbool(o.plain)}
 }
 func travOptsFromVal(v Val) travOpts {
 	l := v.(VL)
-	return travOpts{uint64(l[0].(VN)), uint64(l[1].(VN)), uint64(l[2].(VN)), l[3].(VN) != 0, uint64(l[4].(VN)), l[5].(VN) != 0, l[6].(VN) != 0}
+	o := travOpts{uint64(l[0].(VN)), uint64(l[1].(VN)), uint64(l[2].(VN)), l[3].(VN) != 0, uint64(l[4].(VN)), l[5].(VN) != 0, l[6].(VN) != 0, false}
+	if len(l) > 7 {
+		o.plain = l[7].(VN) != 0
+	}
+	return o
 }
 func (o travOpts) v2() []carv2.Option {
 	var out []carv2.Option
@@ -294,6 +299,17 @@ type loggingGetter struct {
 	events []*getEvent
 }
 
+// detNode fixes the order of Links(): go-ipld-cbor decodes maps into Go maps and lists their
+// links in map-iteration order, which would make the recorded oracle differ from run to run
+// (and a replay differ from its recording).  The node getter is the caller's; any format.Node
+// implementation is legitimate.
+type detNode struct {
+	format.Node
+	links []*format.Link
+}
+
+func (d detNode) Links() []*format.Link { return d.links }
+
 func decodeFormatNode(c cid.Cid, d []byte) (format.Node, error) {
 	b, err := blocks.NewBlockWithCid(d, c)
 	if err != nil {
@@ -303,7 +319,13 @@ func decodeFormatNode(c cid.Cid, d []byte) (format.Node, error) {
 	case cid.DagProtobuf:
 		return merkledag.DecodeProtobufBlock(b)
 	case cid.DagCBOR:
-		return cbornode.DecodeBlock(b)
+		nd, err := cbornode.DecodeBlock(b)
+		if err != nil {
+			return nil, err
+		}
+		ls := append([]*format.Link(nil), nd.Links()...)
+		sort.SliceStable(ls, func(i, j int) bool { return bytes.Compare(ls[i].Cid.Bytes(), ls[j].Cid.Bytes()) < 0 })
+		return detNode{nd, ls}, nil
 	default:
 		return merkledag.DecodeRawBlock(b)
 	}
@@ -320,7 +342,11 @@ func (g *loggingGetter) Get(_ context.Context, c cid.Cid) (format.Node, error) {
 		g.events = append(g.events, &getEvent{c: c, failed: true})
 		return nil, err
 	}
-	g.events = append(g.events, &getEvent{c: c, data: d})
+	ev := &getEvent{c: c, data: d}
+	for _, l := range nd.Links() { // what DefaultWalkFunc will return for this node
+		ev.links = append(ev.links, l.Cid)
+	}
+	g.events = append(g.events, ev)
 	return nd, nil
 }
 func (g *loggingGetter) GetMany(ctx context.Context, cs []cid.Cid) <-chan *format.NodeOption {
@@ -332,11 +358,13 @@ func (g *loggingGetter) GetMany(ctx context.Context, cs []cid.Cid) <-chan *forma
 	close(ch)
 	return ch
 }
+// walk is the WalkFunc handed to WriteCarWithWalker: the node's links, logged for the node just fetched
 func (g *loggingGetter) walk(nd format.Node) ([]*format.Link, error) {
 	ls := nd.Links()
 	if len(g.events) > 0 {
 		ev := g.events[len(g.events)-1]
 		if ev.c.Equals(nd.Cid()) {
+			ev.links = nil
 			for _, l := range ls {
 				ev.links = append(ev.links, l.Cid)
 			}
@@ -517,7 +545,12 @@ func runTrav(c *Ctx, tc *travCase) (traces Val, obs Val) {
 		if len(roots) == 0 && !tc.opts.nilRoots {
 			roots = []cid.Cid{}
 		}
-		err := carv1.WriteCarWithWalker(ctx, g, roots, &buf, g.walk)
+		var err error
+		if tc.opts.plain {
+			err = carv1.WriteCar(ctx, g, roots, &buf)
+		} else {
+			err = carv1.WriteCarWithWalker(ctx, g, roots, &buf, g.walk)
+		}
 		return VL{g.visitSequence(tc.roots).val(err == nil)}, VL{VB(buf.Bytes()), travErr(err)}
 	}
 }
